@@ -7,7 +7,9 @@ package main
 import (
 	"context"
 	"encoding/binary"
+	"errors"
 	"fmt"
+	"github.com/basekick-labs/arc/zzverif/shim/vclock"
 	"hash/crc32"
 	"os"
 	"path/filepath"
@@ -160,7 +162,7 @@ func shapes() []appended {
 	long := strings.Repeat("d", 255)
 	env := func(name, db string) appended {
 		return appended{shape: name,
-			do: func(w *wal.Writer, i int) error { p, _ := colPayload(i); return w.AppendRawWithMeta(db, p) },
+			do:   func(w *wal.Writer, i int) error { p, _ := colPayload(i); return w.AppendRawWithMeta(db, p) },
 			want: func(i int) *got { _, g := colPayload(i); g.DB = db; return g }}
 	}
 	return []appended{
@@ -202,6 +204,10 @@ type walFile struct {
 	idx  []int
 }
 
+var errFraming = errors.New("framing")
+var framingSkipped, baselineViol int64
+var framingMsg atomic.Value
+
 // produce runs the real writer over the log and returns the files in creation order.
 func produce(dir string, log []int, sh []appended, rotateAt int64) ([]walFile, error) {
 	os.RemoveAll(dir)
@@ -221,6 +227,7 @@ func produce(dir string, log []int, sh []appended, rotateAt int64) ([]walFile, e
 	names, _ := filepath.Glob(filepath.Join(dir, "*.wal"))
 	sort.Strings(names) // file names embed creation time with ns resolution
 	var out []walFile
+	var framing error
 	gi := 0
 	for _, n := range names {
 		b, err := os.ReadFile(n)
@@ -236,15 +243,17 @@ func produce(dir string, log []int, sh []appended, rotateAt int64) ([]walFile, e
 			f.idx = append(f.idx, gi)
 			gi++
 		}
-		if off != len(b) {
-			return nil, fmt.Errorf("harness cannot parse writer output (off=%d len=%d)", off, len(b))
+		if off != len(b) && framing == nil {
+			framing = fmt.Errorf("%w: writer output does not follow header+entries framing (file %s off=%d len=%d)", errFraming, f.name, off, len(b))
 		}
 		out = append(out, f)
 	}
-	if gi != len(log) {
-		return nil, fmt.Errorf("writer produced %d entries for %d appends", gi, len(log))
+	if gi != len(log) && framing == nil {
+		framing = fmt.Errorf("%w: writer produced %d framed entries for %d appends", errFraming, gi, len(log))
 	}
-	return out, nil
+	// with a framing error the raw files are still returned: the caller first asks the REAL recovery whether the
+	// untouched output yields every appended entry (if not, that is the property, not a harness problem)
+	return out, framing
 }
 
 // recoverDir writes files (with their original relative mtime order) and runs the real recovery.
@@ -337,6 +346,9 @@ func main() {
 	var next int64 = -1
 	var wg sync.WaitGroup
 	complete := int32(1)
+	// the writer's clock is virtual (1µs per reading): rotation file names, which embed the time, do not
+	// depend on how fast this machine happens to be
+	vclock.Install(time.Unix(1_700_000_000, 0))
 	root := fmt.Sprintf("/dev/shm/verif.c06.%d", os.Getpid())
 	defer os.RemoveAll(root)
 	for wk := 0; wk < 16; wk++ {
@@ -355,7 +367,8 @@ func main() {
 				}
 				jb := jobs[ji]
 				files, err := produce(dir, jb.log, sh, jb.rotate)
-				if err != nil {
+				framingErr := err
+				if err != nil && !errors.Is(err, errFraming) {
 					ev.Unbound("C06 produce: " + err.Error())
 				}
 				wants := make([]*got, len(jb.log))
@@ -378,7 +391,17 @@ func main() {
 					}
 				}
 				if bad != "" || len(m) != nd {
-					run.Violate("intact-log-not-fully-recovered|"+strings.Join(shapeNames, ","), "recovery of an uncorrupted log did not return every appended entry: "+bad, map[string]any{"log": shapeNames, "rotate": jb.rotate})
+					atomic.AddInt64(&baselineViol, 1)
+					run.Violate("intact-log-not-fully-recovered|"+strings.Join(shapeNames, ","), "recovery of an uncorrupted log did not return every appended entry: "+bad, map[string]any{"log": shapeNames, "rotate": jb.rotate, "files": len(files), "framing": fmt.Sprint(framingErr)})
+					continue
+				}
+				if framingErr != nil {
+					// recovery returns everything, yet the harness cannot locate the entries to corrupt them: skip this
+					// log (other logs may still show the property broken); reported as HARNESS-UNBOUND at the end
+					// unless a violation was found
+					if atomic.AddInt64(&framingSkipped, 1) == 1 {
+						framingMsg.Store(framingErr.Error())
+					}
 					continue
 				}
 				samples.Add(map[string]any{"log": shapeNames, "files": len(files), "bytes": len(files[0].data)})
@@ -461,6 +484,10 @@ func main() {
 		}(wk)
 	}
 	wg.Wait()
+	if n := atomic.LoadInt64(&framingSkipped); n > 0 && atomic.LoadInt64(&baselineViol) == 0 {
+		ev.Unbound(fmt.Sprintf("C06 produce: %d logs skipped, first: %v", n, framingMsg.Load()))
+	}
+	run.Coverage["logs_skipped_unparseable_writer_output"] = atomic.LoadInt64(&framingSkipped)
 	run.Coverage["evaluations"] = evals
 	run.Coverage["distinct_nontrivial"] = nontrivial
 	run.Coverage["rule"] = "logs = all sequences of length 1.." + fmt.Sprint(maxLen) + " over 8 payload shapes (row, raw columnar, enveloped db ''/d/255 chars, two rows embedding a framed entry at the offsets a corrupted length resumes on, 0-byte), each with and without forced rotation; variants = every truncation offset and every byte position x {^0x01,^0x80,:=0x00,:=0xFF} of every file; non-trivial = the variant loses at least one entry relative to the intact log (each (log,file,kind,offset,value) is a distinct case)"
